@@ -254,10 +254,20 @@ public:
    */
   AssociationGraphImplObserver<N, E, GraphImpl>& operator=(bpp::AssociationGraphImplObserver<N, E, GraphImpl> const& graphObserver)
   {
-    this->graphidToN_.resize(graphObserver.graphidToN_.size());
-    this->graphidToE_.resize(graphObserver.graphidToE_.size());
-    this->indexToN_.resize(graphObserver.indexToN_.size());
-    this->indexToE_.resize(graphObserver.indexToE_.size());
+    if (this == &graphObserver)
+      return *this;
+
+    // leaving the graph observed until now and forgetting its objects
+    this->getGraph()->unregisterObserver(this);
+    this->NToGraphid_.clear();
+    this->EToGraphid_.clear();
+    this->NToIndex_.clear();
+    this->EToIndex_.clear();
+
+    this->graphidToN_.assign(graphObserver.graphidToN_.size(), Nref());
+    this->graphidToE_.assign(graphObserver.graphidToE_.size(), Eref());
+    this->indexToN_.assign(graphObserver.indexToN_.size(), Nref());
+    this->indexToE_.assign(graphObserver.indexToE_.size(), Eref());
 
     for (const auto& itN:graphObserver.NToGraphid_)
     {
